@@ -71,7 +71,7 @@ class Sim:
         self.xknx = XKNX()
         self.xknx.knxip_interface = Bus(self)
         self._h = _ErrLog(self)
-        self._loggers = [logging.getLogger(n) for n in ("xknx.log", "asyncio")]
+        self._loggers = [logging.getLogger(n) for n in ("xknx.log", "asyncio", "xknx.cemi", "xknx.telegram", "xknx.knx", "xknx.state_updater")]
         self._old = [(lg.propagate, lg.level) for lg in self._loggers]
 
     def now(self):
